@@ -293,7 +293,7 @@ def enumerate_(collection, start=0):
         [[2, 'a'], [3, 'b'], [4, 'c']]
     """
     for i, t in enumerate(collection, start):
-        yield [i, t]
+        yield (i, t)
 
 
 @specs.parameter('collection', yaqltypes.Iterable())
